@@ -58,6 +58,15 @@ func All() map[string]orch.PropertySpec {
 			Rule: "cases: (a) spec/Garbage.tla classes x 8 entry points (6 decoders + DecryptBytes + Decrypt) x normal / bare SP (empty store, no keys, no clock): 19 base-independent classes (bad base64, bad DEFLATE, non-XML, no root, wrong root, DOCTYPE entities, invalid UTF-8, undeclared prefixes, colon names, deep nesting, wide tree, many attributes, huge text, xmlns abuse ...), 7 positional damage classes at 7 (quick) / 25 (thorough) positions of 4 genuine messages, 18 structural damages of Signature / EncryptedData; (b) truncation and bit flip at every 11th (quick) / every (thorough) offset of each genuine message on its own entry points; (c) the ciphertext-shape sub-space of spec/Xmlenc.tla reached through an unsigned Response; (d) every case of the Forgery, Trust, Profile, Time and Logout families; distinct = distinct abstract (cfg,input); non-trivial = the input reaches the routine under test (DecryptBytes cases whose octets do not decode into an EncryptedAssertion are trivial)",
 			Parts: []orch.Part{{Family: fam.Garbage{}, Monitors: []string{"C09"}}, {Family: fam.Xmlenc{}, Monitors: []string{"C09"}}, {Family: fam.Forgery{}, Monitors: []string{"C09"}}, {Family: fam.Logout{}, Monitors: []string{"C09"}}, {Family: fam.Time{}, Monitors: []string{"C09"}}},
 		},
+		"C13": {ID: "C13", Level: "model_checking", Assumptions: append([]string{"configuration strings are seeded samples of five classes, not enumerated"}, trusted...),
+			Rule: "cases TLC enumerates from spec/Outbound.tla: (keys) 15 key configurations (encryption / signing key by field, setter or both, four distinct key pairs) x 6 algorithm settings (unset, RSA-SHA1/256/384/512, ECDSA-SHA256 via setter) x 7 canonicaliser settings x 3 message kinds; (shape) every combination of the optional settings x string class; each message is serialised as the bindings do, re-parsed, and its signature analysed independently (SignedInfo canonicalised as declared, SignatureValue checked with crypto/rsa / crypto/ecdsa against all candidate keys, digest recomputed), plus reported and metadata certificates; non-trivial = every signed case",
+			Parts: []orch.Part{{Family: fam.Outbound{}, Monitors: []string{"C13"}}}},
+		"C15": {ID: "C15", Level: "model_checking", Assumptions: append([]string{"configuration strings are seeded samples of five classes, not enumerated"}, trusted...),
+			Rule: "cases TLC enumerates from spec/Outbound.tla (shape and keys sub-spaces): ForceAuthn x IsPassive x NameIdFormat set/unset x RequestedAuthnContext nil / 0..2 contexts x SP issuer set or falling back x clock zone x string class x 3 message kinds; the output is parsed by expat and by encoding/xml (which must agree), children are checked against the SAML schema sequence in TLA+, every value is compared, and the element/attribute skeleton is compared with the one produced by benign strings; non-trivial = every case",
+			Parts: []orch.Part{{Family: fam.Outbound{}, Monitors: []string{"C15"}}}},
+		"C19": {ID: "C19", Level: "model_checking", Assumptions: append([]string{"validity hours are bounded by what time.Duration can represent"}, trusted...),
+			Rule: "cases TLC enumerates from spec/Outbound.tla (meta sub-space): plain / single-logout variant x requested hours x AuthnRequestsSigned x skip-signature x string class x 12 key configurations x clock zone; the marshalled metadata is parsed by expat, compared with configuration, the published signing certificate with the key that verifies a message signed in the same run, the published encryption certificate with the key that decrypts a message encrypted to it in the same run; non-trivial = every case",
+			Parts: []orch.Part{{Family: fam.Outbound{}, Monitors: []string{"C19"}}}},
 	}
 }
 
